@@ -62,8 +62,19 @@ fn hostile_preload(rng: &mut Rng, apps: &[AppSpec]) -> (BTreeMap<String, Val>, S
 fn hostile_body(rng: &mut Rng, apps: &[AppSpec]) -> (Vec<u8>, String) {
     let (doc, _) = gen_doc(rng, apps, None, true);
     let good = crate::sim::omaha::render_doc(&doc);
-    match rng.below(10) {
+    match rng.below(12) {
         9 => (vec![], "empty".into()),
+        10 => {
+            // every short truncation of a guarded document, and near-miss guards
+            let mut b = b")]}'\n".to_vec();
+            b.extend_from_slice(&good);
+            let cut = rng.usize(9);
+            (b[..cut].to_vec(), format!("xssi-trunc{}", cut))
+        }
+        11 => {
+            let v: &[u8] = *rng.pick(&[&b")]}'\r"[..], b")]}'\r\n", b")]}' ", b")]}'\n", b")]}'\n\n", b")]}'x", b")]}')]}'\n", b" )]}'\n{}"]);
+            (v.to_vec(), "xssi-nearmiss".into())
+        }
         0 => {
             let n = rng.usize(300);
             (rng.bytes(n), "random".into())
